@@ -92,7 +92,12 @@ Section Render.
 
   Definition slot_of (ev : env) (l : list vattr) : option (option val) :=
     match find (fun a => match va_chan a with ChSlotAttr => true | _ => false end) l with
-    | Some a => match attr_value ev a with Some v => Some (Some v) | None => None end
+    | Some a =>
+        (* the slot is always delivered as a string (Y), on elements as on virtual nodes *)
+        match attr_value ev a with
+        | Some v => option_map (fun s => Some (VStr s)) (display_string v)
+        | None => None
+        end
     | None => Some None
     end.
 
